@@ -59,6 +59,8 @@ def s_spec(pcp, env, opts, login, selfpath):
     u = last("u")
     out["ut"] = lenient(u) if u is not None else envvals.get("PDSH_COMMAND_TIMEOUT", 0)
     for lt, x in opts:
+        if x is None:
+            continue
         if lt == "l" and len(x) > 256:
             return ("REFUSED",)
         if lt == "e" and not pcp:
@@ -126,6 +128,9 @@ def gen_case(r):
         else:
             v = r.choice([b"/usr/bin/pdcp", b"rel/pdcp"])
         opts.append((l, v))
+    if not pcp and r.chance(1, 4):
+        # an option that only a (not yet loaded) module knows, anywhere on the command line: -a of the test modules A and B
+        opts.insert(r.below(len(opts) + 1), ("a", None))
     return pcp, env, opts
 
 
@@ -145,7 +150,7 @@ def run(ctx):
         for fn in sorted(os.listdir(cdir)):
             if fn.endswith(".json"):
                 c = json.load(open(os.path.join(cdir, fn)))
-                cases.append((c["pcp"], {k: v.encode("latin-1") for k, v in c["env"].items()}, [(l, v.encode("latin-1")) for l, v in c["opts"]]))
+                cases.append((c["pcp"], {k: v.encode("latin-1") for k, v in c["env"].items()}, [(l, None if v is None else v.encode("latin-1")) for l, v in c["opts"]]))
     ncorpus = len(cases)
     for _ in range(500 if quick else 12000):
         cases.append(gen_case(r))
@@ -157,7 +162,7 @@ def run(ctx):
         selfpath = os.path.join(real.dir, "bin", prog).encode()
         args = []
         for l, v in opts:
-            args += ["-" + l, v]
+            args += ["-" + l] if v is None else ["-" + l, v]
         # the target word comes last, or first and names the (valid) transport itself: a transport already in use must not make
         # a later unknown name acceptable
         wfirst = (len(args) + len(env)) % 3 == 0
@@ -179,14 +184,14 @@ def run(ctx):
         observed.append(obs)
         envf = [hexs(env[k]) if k in env and env[k] != b"" else ("_" if k not in env else "-") for k in ENVN]
         mcases.append("set %d %s 256 %s %s %s %s %s" % (1 if pcp else 0, hexs(login), hexs(b"exec"), hexs(b"exec"), hexs(selfpath), " ".join(envf),
-                                                       " ".join("%s:%s" % (l, hexs(v)) for l, v in opts)))
+                                                       " ".join("%s:%s" % (l, hexs(v)) for l, v in opts if v is not None)))
     mres = ctx.run_lines([model], mcases, env={"OCAMLRUNPARAM": "l=4G"}, crash_tag="MODEL-CRASH")
     bad, samples = 0, []
     for (pcp, env, opts), obs, mc, mr in zip(cases, observed, mcases, mres):
         prog = "pdcp" if pcp else "pdsh"
         selfpath = os.path.join(real.dir, "bin", prog).encode()
         spec = s_spec(pcp, env, opts, login, selfpath)
-        desc = "%s env=%r opts=%r" % (prog, env, [(l, v[:30]) for l, v in opts])
+        desc = "%s env=%r opts=%r" % (prog, env, [(l, None if v is None else v[:30]) for l, v in opts])
         problem = None
         if obs[0] == "HANG":
             problem = ("input", "pdsh hangs instead of refusing or running")
@@ -215,7 +220,7 @@ def run(ctx):
             problem = ("corr", "implementation and model disagree: impl %s model %s" % (mobs, mcmp))
         if problem:
             bad += 1
-            rec = {"pcp": pcp, "env": {k: v.decode("latin-1") for k, v in env.items()}, "opts": [(l, v.decode("latin-1")) for l, v in opts]}
+            rec = {"pcp": pcp, "env": {k: v.decode("latin-1") for k, v in env.items()}, "opts": [(l, None if v is None else v.decode("latin-1")) for l, v in opts]}
             if problem[0] == "input":
                 ctx.violation("input", case=rec, expected=str(spec)[:300], observed=str(obs)[:300], engine="args", detail=problem[1] + "; " + desc[:300])
             else:
@@ -224,7 +229,7 @@ def run(ctx):
             if bad >= 6:
                 break
         if len(samples) < 3 and len(opts) >= 2 and env:
-            samples.append({"prog": prog, "env": {k: v.decode("latin-1") for k, v in env.items()}, "opts": [(l, v.decode("latin-1")[:20]) for l, v in opts], "observed": obs[0]})
+            samples.append({"prog": prog, "env": {k: v.decode("latin-1") for k, v in env.items()}, "opts": [(l, None if v is None else v.decode("latin-1")[:20]) for l, v in opts], "observed": obs[0]})
     # a valid fanout is the fanout, and pdsh neither refuses nor hangs, whatever the descriptor limit of the process is
     # (real children through the exec transport; the limit is the hard limit, so pdsh cannot raise it)
     real2 = realeng.Real(ctx, tag="real18x")
@@ -240,6 +245,19 @@ def run(ctx):
                           observed="hang (25 s)" if rc == -999 else "exit %d, output %r" % (rc, got[:6]), engine="exec",
                           detail="pdsh -R exec -f %d on %d targets under a descriptor limit of %d %s" % (f, n, nofile, "hangs" if rc == -999 else "does not run the command everywhere"))
     dist["low_descriptor_limit_runs"] = nlow
+    # a setting that cannot work with the transport in effect (a connect time-out with the exec transport, which has none) is
+    # refused before anything is run - from the command line and from the environment, in either order
+    for args, env in ((["-R", "exec", "-t", "5"], {}), (["-t", "5", "-R", "exec"], {}), (["-R", "exec"], {"PDSH_CONNECT_TIMEOUT": "5"}), (["-t", "7"], {"PDSH_RCMD_TYPE": "exec"})) if bad < 6 else ():
+        mark = os.path.join(ctx.scratch, "ran18")
+        if os.path.exists(mark):
+            os.unlink(mark)
+        rc, o, er = real2.run(args + ["-w", "h1", "sh", "-c", "echo ran > " + mark], env=env, timeout=20)
+        nlow += 1
+        if rc != 1 or os.path.exists(mark):
+            bad += 1
+            ctx.violation("input", case={"pcp": False, "env": env, "opts": args}, expected="refused: exit 1, nothing run", observed="exit %s, command %s" % (rc, "was run" if os.path.exists(mark) else "not run"),
+                          engine="exec", detail="pdsh %s (env %r): a connect time-out cannot work with the exec transport; exit %s, the command %s; stderr %r" % (
+                              " ".join(args), env, rc, "was run" if os.path.exists(mark) else "was not run", er[-160:]))
     # the remote program path in effect is the one that is SENT: the command handed to the transport by pdcp and by rpdcp
     # starts with it (-e > PDSH_REMOTE_PDCP_PATH > pdcp's own path), whatever -q prints
     try:
